@@ -266,6 +266,7 @@ type formulaBuilder struct {
 	onPath  map[*ssa.BasicBlock]bool
 	undec   []string
 	phiBusy map[*ssa.Phi]bool
+	root    *ssa.BasicBlock // reach() is relative to this block when set (it must dominate the queried block)
 }
 
 func newFormulaBuilder() *formulaBuilder {
@@ -451,8 +452,11 @@ func (fb *formulaBuilder) reach(b *ssa.BasicBlock) BExpr {
 	if e, ok := fb.memoB[b]; ok {
 		return e
 	}
-	if b.Index == 0 || len(b.Preds) == 0 {
+	if b.Index == 0 || len(b.Preds) == 0 || b == fb.root {
 		return bConst(true)
+	}
+	if fb.root != nil && !fb.root.Dominates(b) {
+		return bConst(false) // a predecessor outside the region below root: not on a path from root
 	}
 	if fb.onPath[b] {
 		fb.undec = append(fb.undec, fmt.Sprintf("loop through block %d of %s", b.Index, fname(b.Parent())))
@@ -500,4 +504,23 @@ func (fb *formulaBuilder) inlineCall(call *ssa.Call, f *ssa.Function) BExpr {
 	}
 	fb.undec = append(fb.undec, sub.undec...)
 	return bOr{alts}
+}
+
+// leaves calls f on every atom of e.
+func leaves(e BExpr, f func(BExpr)) {
+	switch x := e.(type) {
+	case bNot:
+		leaves(x.X, f)
+	case bAnd:
+		for _, y := range x.Xs {
+			leaves(y, f)
+		}
+	case bOr:
+		for _, y := range x.Xs {
+			leaves(y, f)
+		}
+	case bConst:
+	default:
+		f(e)
+	}
 }
